@@ -3,7 +3,7 @@ import collections
 import math
 from fractions import Fraction as F
 
-from .base import Monitor
+from .base import Monitor, unrank_sequence, sequence_space
 from .plugin_hist import EV_START, EV_END, EV_FILE, EV_NEUTRAL
 from ..harness import Plugin, digest
 
@@ -41,7 +41,7 @@ def rand_shape(rnd):
 
 class C13(Monitor):
     prop = "C13"
-    quick_cases = 1400
+    quick_cases = 2000
     rule = ("sequences of API requests {add with/without id, duplicate id, update of an unknown id, update with a changed type, bad "
             "type, delete of an unknown id, delete, each of them also as anonymous user} interleaved with file selection, print "
             "start and print end events under both clear-after-print settings; a list model (append / replace in place / remove) "
@@ -51,7 +51,27 @@ class C13(Monitor):
     assumptions = ["on_api_command is called directly (OctoPrint's own request validation is not part of the plugin)"]
 
 
+    R1 = dict(type="RectangularRegion", x1=10, y1=10, x2=20, y2=20)
+    C1 = dict(type="CircularRegion", cx=15, cy=15, r=20)
+    LETTERS = [["api", "addExcludeRegion", dict(R1, id="a"), False], ["api", "addExcludeRegion", dict(C1, id="a"), False],
+               ["api", "addExcludeRegion", dict(R1, id="b"), False], ["api", "addExcludeRegion", dict(C1), False],
+               ["api", "updateExcludeRegion", dict(C1, id="a"), False], ["api", "updateExcludeRegion", dict(R1, id="zz"), False],
+               ["api", "updateExcludeRegion", dict(R1, id="a", type="Blob"), False], ["api", "deleteExcludeRegion", dict(id="a"), False],
+               ["api", "deleteExcludeRegion", dict(id="zz"), False], ["api", "deleteExcludeRegion", dict(id="a"), True],
+               ["event", EV_FILE], ["event", EV_START], ["event", "PrintDone"], ["get"]]
+    exhaustive_what = ("small scope: every sequence of up to 3 (quick) / 4 (thorough) steps over {add a, add a again (other type), add b, "
+                       "add without id, update a (type change, covering), update unknown, bad type, delete a, delete unknown, anonymous "
+                       "delete, file selected, print started, print done, GET} under (clear, shrink) = (on, off) and (off, on)")
+
     def gen_case(self, rnd, tier, k):
+        if k % 4 != 0:
+            maxlen = 3 if tier == "quick" else 4
+            total = 2 * sequence_space(len(self.LETTERS), maxlen)
+            e = (k - k // 4 - 1) * getattr(self, "nshards", 1) + getattr(self, "shard", 0)
+            if e < total:
+                seq = unrank_sequence(e // 2, len(self.LETTERS), maxlen)
+                steps = [[x if not isinstance(x, dict) else dict(x) for x in self.LETTERS[l]] for l in seq]
+                return dict(settings=dict(clear=bool(e % 2), shrink=not bool(e % 2)), steps=steps, small=e, small_total=total)
         steps = []
         ids = []
         n = 0
@@ -97,6 +117,10 @@ class C13(Monitor):
     def check_case(self, case):
         stats = collections.Counter()
         v = []
+        sets = collections.defaultdict(set)
+        if "small" in case:
+            sets["exhaustive_indices"].add(case["small"])
+            stats["exhaustive_of_%d" % case["small_total"]] += 1
         p = Plugin(case["settings"])
         p.pm.take()
         model = []
@@ -205,7 +229,7 @@ class C13(Monitor):
                 break
         kinds = set(r if isinstance(r, int) else r[0] for r in rejections)
         nontrivial = {400, 403, 409} <= kinds and (409, "add") in rejections and (409, "update") in rejections
-        return dict(violations=v, nontrivial=nontrivial and not v, stats=stats, sets={},
+        return dict(violations=v, nontrivial=nontrivial and not v, stats=stats, sets=sets,
                     sample=dict(settings=case["settings"], steps=case["steps"][:12]))
 
     def thresholds(self, tier):
